@@ -23,7 +23,7 @@ TEMPLATES = [
     "[C:1]=[O:2].[N:3][H:4]>>[C:1]([O:2][H:4])[N:3]",
     "[C:1]=[C:2].[H:3][H:4]>>[C:1]([H:3])[C:2][H:4]",
 ]
-SUBSTRATES = ["CC=O.NC", "CCC=O.NCC", "CC(=O)O.CO", "CCC(=O)O.OCC", "C=C.[HH]", "CC=CC.[HH]", "CCBr.[OH-]", "CN.CCl", "CCN.CCCl",
+SUBSTRATES = ["CC=O.NC", "CCC=O.NCC", "CC(=O)O.CO", "CCC(=O)O.OCC", "C=C.[H][H]", "CC=CC.[H][H]", "CCBr.[OH-]", "CN.CCl", "CCN.CCCl",
               "C=CC=C.C=C", "CC=O.CC=O", "N.[H+]", "CN.[H+]", "CC(N)=O.O", "NC(N)=O.O", "CC(=O)NC", "O=CC=O.NC", "OC(=O)CC(=O)O.CO", "CC(C)=O.NC",
               "NC(=O)NC", "CC(=O)N", "C=CC(C)=C.C=CC",
               # product-like molecules (for backward application)
